@@ -112,7 +112,10 @@ def invoke(fid: str, kwargs: dict[str, Any]) -> Any:
         w = fail["when"]
         if w == "*" or (isinstance(w, int) and w == base["n"]) or (isinstance(w, dict) and w == kw_json):
             emit("fail", cls=fail["cls"], args=fail.get("args", []))
-            raise EXC[fail["cls"]](*fail.get("args", []))
+            exc = EXC[fail["cls"]](*fail.get("args", []))
+            if fail.get("prenote"):          # the user's exception already carries a note of its own
+                exc.add_note("note added by the user function before raising")
+            raise exc
     args = tuple(canon(kwargs[p]) for p in fd["params"])
     ishape = fd.get("internal_shape") or []
 
